@@ -86,8 +86,13 @@ def tree_case(job):
         part.count('trees', 'n=%d' % n)
         # funding + spending skeleton paying the printed address
         amount = rng.choice([546, 100000, 21 * 10 ** 14])
-        fund = rsign.funding_tx(rng, [(amount, rsign.spk_p2tr(q))])
-        tx = rsign.spending_tx(rng, [(rtx.txid(fund), 0)], nout=1, version=2, locktime=0, sequences=[0xffffffff])
+        # the taproot output sits at a random position of the funding transaction, next to unrelated outputs
+        nfo = rng.choice([1, 2, 3])
+        fvout = rng.randrange(nfo)
+        fouts = [(rng.choice([1000, 77777]), rng.choice([rsign.spk_p2wpkh(secp.pub_from_sec(99)), rsign.spk_p2tr(secp.xonly_from_sec(98)), b'\x51'])) for _ in range(nfo)]
+        fouts[fvout] = (amount, rsign.spk_p2tr(q))
+        fund = rsign.funding_tx(rng, fouts)
+        tx = rsign.spending_tx(rng, [(rtx.txid(fund), fvout)], nout=rng.choice([1, 2]), version=rng.choice([1, 2]), locktime=rng.choice([0, 500000]), sequences=[rng.choice([0xffffffff, 0xfffffffe, 5])])
         tx.wit = None
         txh, finh = rtx.ser_tx(tx).hex(), rtx.ser_tx(fund).hex()
         spent = [(amount, rsign.spk_p2tr(q))]
